@@ -73,7 +73,13 @@ def _gate_PHASEGATE(gate, temp_resolved):
         )
     )
     temp_resolved.append(
-        Gate("RZ", gate.targets, None, gate.arg_value, gate.arg_label)
+        Gate(
+            "RZ",
+            gate.targets,
+            None,
+            gate.arg_value,
+            arg_label=gate.arg_label,
+        )
     )
 
 
@@ -437,7 +443,7 @@ def _gate_GLOBALPHASE(gate, temp_resolved):
             gate.targets,
             gate.controls,
             gate.arg_value,
-            gate.arg_label,
+            arg_label=gate.arg_label,
         )
     )
 
